@@ -580,6 +580,7 @@ def run(chk):
     _flagorder_rule(chk, prog)
     _negzero_rule(chk, prog)
     _depthsym_rule(chk, prog)
+    _writerpure_rule(chk, prog)
 
 
 def _asmrange_rule(chk, prog):
@@ -813,3 +814,44 @@ def _depthsym_rule(chk, prog):
                           "`%s` steps the depth by %s where the writer steps by %s on the same kind of nesting: values the writer "
                           "accepts at the recursion limit are refused by the reader (or the other way round)" % (c.text()[:60], sorted(R[e]), sorted(W[e])))
     chk.floor(rule, 5, n)
+
+
+VALUE_RECORDS = ("JanetStackFrame", "JanetFiber", "JanetFuncDef", "JanetFuncEnv", "JanetFunction", "JanetTable", "JanetArray",
+                 "JanetBuffer", "JanetKV", "JanetStructHead", "JanetTupleHead", "JanetStringHead", "JanetAbstractHead", "JanetSymbolMap")
+
+
+def _writerpure_rule(chk, prog):
+    """Marshalling is an observation: the value must be the same afterwards.  marshal_one_fiber used to record `this
+    frame has an environment` in the LIVE frame's flags; when the fiber later dropped that environment (a tail call)
+    the bit stayed, and the next image announced an environment it did not contain - unreadable."""
+    rule = "C09-WRITERPURE"
+    chk.rule(rule, "the marshal_* functions store only into the writer's own state, never into the values they serialise")
+    tu = prog.tus["marsh.c"]
+    n = 0
+    for fn in tu.funcs.values():
+        if not (fn.name.startswith("marshal_") or fn.name.startswith("janet_marshal")):
+            continue
+        n += 1
+        chk.instance(rule)
+        chk.analysed(fn)
+        bad = None
+        for x in fn.nodes:
+            t = None
+            if x.k == "asg":
+                t = x.kids[0]
+            elif x.k == "un" and x.op in ("post++", "pre++", "post--", "pre--"):
+                t = x.kids[0]
+            if t is not None and t.k == "mem" and t.rec in VALUE_RECORDS:
+                base = strip_casts(t.kids[0])
+                # a local struct built by the function itself is its own
+                if base.k == "ref" and any(d.k == "vardecl" and d.name == base.name and "*" not in (d.t or "") for d in fn.nodes):
+                    continue
+                bad = x
+                break
+        if bad is None:
+            chk.ok(rule, "%s: no store into a serialised value" % fn.name)
+        else:
+            chk.violation(rule, "marsh.c", fn.name, "store:%s.%s" % (bad.kids[0].rec, bad.kids[0].field), bad.loc,
+                          "`%s` changes the value that is being marshalled: what was written into it survives the call and shows up in "
+                          "later images or in the running program" % bad.text()[:60])
+    chk.floor(rule, 8, n)
